@@ -271,9 +271,164 @@ fn check_dup(ops: &Vec<DOp>, info: &mut CaseInfo) -> CheckResult {
     Ok(())
 }
 
+
+// ---------------------------------------------------------------------------------------------
+// mixed mode: duplicate entries and dedup entries in one queue, on disjoint segments
+
+#[derive(Clone, Debug, Serialize, Deserialize)]
+enum MOp {
+    /// dedup push on a "dedup segment" (0..3)
+    PushCovered(u8, u8, bool),
+    /// duplicate push on a "duplicate segment" (4..6)
+    PushDup(u8, u8),
+    Pop,
+    PopCovered,
+    PopDups,
+    Peek,
+    CoverUpTo(u8, u8, u8),
+    DrainAbove(u8),
+    DrainAll,
+    AllCovered,
+}
+
+fn mop() -> impl Strategy<Value = MOp> {
+    prop_oneof![
+        4 => (0u8..4, 0u8..6, any::<bool>()).prop_map(|(s, m, c)| MOp::PushCovered(s, m, c)),
+        4 => (4u8..7, 0u8..6).prop_map(|(s, m)| MOp::PushDup(s, m)),
+        1 => Just(MOp::Pop),
+        2 => Just(MOp::PopCovered),
+        3 => Just(MOp::PopDups),
+        1 => Just(MOp::Peek),
+        2 => (0u8..4, 0u8..6, 0u8..6).prop_map(|(s, c, e)| MOp::CoverUpTo(s, c, e)),
+        1 => (0u8..6).prop_map(MOp::DrainAbove),
+        1 => Just(MOp::DrainAll),
+        1 => Just(MOp::AllCovered),
+    ]
+}
+
+/// Model: (segment, max_cut, covered) entries; duplicate entries are always uncovered and may repeat.
+fn check_mixed(ops: &Vec<MOp>, info: &mut CaseInfo) -> CheckResult {
+    let mut q = TraversalQueue::new();
+    let mut m: Model = Vec::new();
+    let mut mixed_pop = false;
+    let maxcut = |m: &Model| m.iter().map(|e| e.1).max();
+    for (i, o) in ops.iter().enumerate() {
+        match *o {
+            MOp::PushCovered(s, c, covered) => {
+                q.push_covered(loc(s, c), covered).map_err(|e| vcommon::Failure::new("push failed", format!("{e:?}")))?;
+                if let Some(e) = m.iter_mut().find(|e| e.0 == s) {
+                    if c > e.1 {
+                        e.1 = c;
+                        e.2 = covered;
+                    } else if c == e.1 {
+                        e.2 = e.2 || covered;
+                    }
+                } else {
+                    m.push((s, c, covered));
+                }
+            }
+            MOp::PushDup(s, c) => {
+                q.push_duplicate(loc(s, c)).map_err(|e| vcommon::Failure::new("push_duplicate failed", format!("{e:?}")))?;
+                m.push((s, c, false));
+            }
+            MOp::Pop | MOp::PopCovered => {
+                let got = if let MOp::Pop = o {
+                    q.pop().map(|x| x.map(|l| (l, None)))
+                } else {
+                    q.pop_covered().map(|x| x.map(|(l, c)| (l, Some(c))))
+                }
+                .map_err(|e| vcommon::Failure::new("pop failed", format!("{e:?}")))?;
+                match (got, maxcut(&m)) {
+                    (None, None) => {}
+                    (Some((l, c)), Some(mx)) => {
+                        let (s, mc) = key(l);
+                        ensure!(mc == mx, "pop did not return the highest max cut", "op#{i} got {l} want {mx}; model={m:?}");
+                        // several entries may share (segment, max_cut) on duplicate segments: all are uncovered
+                        let Some(p) = m.iter().position(|e| e.0 == s && e.1 == mc && c.is_none_or(|c| c == e.2)) else {
+                            fail!("pop returned the wrong covered flag or an unknown entry", "op#{i} got {l} covered={c:?}; model={m:?}")
+                        };
+                        m.remove(p);
+                    }
+                    (g, w) => fail!("pop emptiness differs", "op#{i} got {g:?} model max {w:?}"),
+                }
+            }
+            MOp::PopDups => {
+                let got = q.pop_duplicates().map_err(|e| vcommon::Failure::new("pop_duplicates failed", format!("{e:?}")))?;
+                match (got, maxcut(&m)) {
+                    (None, None) => {}
+                    (Some((l, n)), Some(mx)) => {
+                        let (s, mc) = key(l);
+                        ensure!(mc == mx, "pop_duplicates did not return the highest max cut", "op#{i} got {l} want {mx}");
+                        let cnt = m.iter().filter(|e| e.0 == s && e.1 == mc).count();
+                        ensure!(cnt == n && n > 0, "pop_duplicates count differs", "op#{i} {l} got {n} want {cnt}; model={m:?}");
+                        if m.iter().any(|e| e.2) && m.iter().any(|e| !e.2 && !(e.0 == s && e.1 == mc)) {
+                            mixed_pop = true;
+                        }
+                        m.retain(|e| !(e.0 == s && e.1 == mc));
+                    }
+                    (g, w) => fail!("pop_duplicates emptiness differs", "op#{i} got {g:?} want {w:?}"),
+                }
+            }
+            MOp::Peek => {
+                let got = q.peek().copied().map(key);
+                ensure!(got.map(|g| g.1) == maxcut(&m), "peek is not the highest max cut", "op#{i} got {got:?}");
+            }
+            MOp::CoverUpTo(s, cov, extra) => {
+                let entry_mc = m.iter().find(|e| e.0 == s).map(|e| e.1).unwrap_or(0);
+                let longest = entry_mc.saturating_add(extra % 4);
+                q.cover_up_to(SegmentIndex::new(u64::from(s)), MaxCut::new(u64::from(cov)), MaxCut::new(u64::from(longest)))
+                    .map_err(|e| vcommon::Failure::new("cover_up_to failed", format!("{e:?}")))?;
+                if let Some(e) = m.iter_mut().find(|e| e.0 == s) {
+                    if !e.2 {
+                        if cov >= longest {
+                            e.2 = true;
+                        } else if cov >= e.1 {
+                            e.1 = cov + 1;
+                        }
+                    }
+                }
+            }
+            MOp::DrainAbove(t) => {
+                let mut got = Vec::new();
+                q.drain_above(MaxCut::new(u64::from(t)), |l| got.push(key(l))).map_err(|e| vcommon::Failure::new("drain_above failed", format!("{e:?}")))?;
+                let mut want: Vec<(u8, u8)> = m.iter().filter(|e| e.1 > t && !e.2).map(|e| (e.0, e.1)).collect();
+                m.retain(|e| e.1 <= t);
+                got.sort_unstable();
+                want.sort_unstable();
+                ensure!(got == want, "drain_above drained the wrong entries", "op#{i} t={t} got={got:?} want={want:?}");
+            }
+            MOp::DrainAll => {
+                let mut got = Vec::new();
+                q.drain_all(|l| got.push(key(l)));
+                let mut want: Vec<(u8, u8)> = m.iter().filter(|e| !e.2).map(|e| (e.0, e.1)).collect();
+                m.clear();
+                got.sort_unstable();
+                want.sort_unstable();
+                ensure!(got == want, "drain_all drained the wrong entries", "op#{i} got={got:?} want={want:?}");
+            }
+            MOp::AllCovered => {}
+        }
+        ensure!(q.is_empty() == m.is_empty(), "emptiness differs after op", "op#{i} {o:?} model={m:?}");
+        ensure!(q.all_covered() == m.iter().all(|e| e.2), "all_covered differs after op", "op#{i} {o:?} model={m:?}");
+    }
+    // final: pop everything with flags
+    while let Some((l, c)) = q.pop_covered().map_err(|e| vcommon::Failure::new("pop failed", format!("{e:?}")))? {
+        let (s, mc) = key(l);
+        let Some(p) = m.iter().position(|e| *e == (s, mc, c)) else {
+            fail!("final contents differ from model", "popped ({s},{mc},{c}); model rest={m:?}")
+        };
+        m.remove(p);
+    }
+    ensure!(m.is_empty(), "queue lost entries", "model still holds {m:?}");
+    if mixed_pop {
+        info.nontrivial();
+    }
+    Ok(())
+}
+
 pub fn run(ctx: &Ctx) -> ! {
     let mut rep = Report::new(ctx, "exploration");
-    rep.assume("dedup-mode and duplicate-mode operations are not mixed in one sequence (no caller mixes them and the docs do not define it)");
+    rep.assume("dedup pushes (push, push_covered, cover_up_to) and push_duplicate are never applied to the same segment (the docs do not define which duplicate a dedup push would update); the mixed_mode part mixes both kinds of entries in one queue on disjoint segments");
     rep.assume("cover_up_to is called with longest_mc >= the queued entry's max cut, as its callers do");
     let n = ctx.pick(200_000, 4_000_000);
     rep.explore(
@@ -299,6 +454,16 @@ pub fn run(ctx: &Ctx) -> ! {
         || prop::collection::vec(dop(3, 4), 0..40),
         n,
         check_dup,
+    );
+    rep.explore(
+        "mixed_mode",
+        "op sequences (len 0..40) mixing dedup entries (segments 0-3: push_covered, cover_up_to) with duplicate entries (segments \
+         4-6: push_duplicate) in one queue, with pop, pop_covered, pop_duplicates, peek, drain_above, drain_all; model as above \
+         (duplicates are uncovered and may repeat); non-trivial = a pop_duplicates while the queue held a covered entry and \
+         another uncovered entry",
+        || prop::collection::vec(mop(), 0..40),
+        n,
+        check_mixed,
     );
     rep.finish()
 }
